@@ -10,7 +10,7 @@ G18  addNet / setNets: every pin's cell index is range-checked (throwing) in a l
      that completes before pins are stored; net limits are validated by throw
 G18b no input validation by assert() in public Circuit mutators
 P2   params.check() first (shared with C10)
-T4   (thorough) default parameters for efforts 1..9 pass their own check()
+T4   the parameters built for each effort 1..9 pass their own check() (constant folding of the constructors and checks)
 """
 import math
 
@@ -31,8 +31,8 @@ EXPLANATION = (
     "length of every vector they install with nbCells()/nbNets() and range-check every pin's cell index, by throw, on a path that "
     "dominates all member writes; G18b: no assert() on parameter-derived conditions in public Circuit mutators. "
     "P2: params.check() is the first library call of the three algorithm entry points. "
-    "T4 (thorough): interval constant propagation through the *Parameters constructors for effort 1..9 shows every throwing "
-    "condition of the matching check() false.")
+    "T4: concrete constant folding (binary32/binary64 kept apart) of ColoquinteParameters(e) and ColoquinteParameters::check() "
+    "for e = 1..9 reaches no throw and no failing assert.")
 
 DECLINED = ["exception *type* and message text", "validation of row geometry (overlapping rows are not in the property's list)"]
 
@@ -50,10 +50,13 @@ def run(ctx, rep, tier):
     rep.rule("G18", "pin cell indices and net limits validated by throw before pins are stored", min_instances=3)
     rep.rule("G18b", "no assert()-based validation of arguments in public Circuit mutators", min_instances=1)
     rep.rule("P2", "params.check() first in the algorithm entry points", min_instances=3)
+    rep.rule("T4", "ColoquinteParameters(e) passes its own check for every effort e in 1..9", min_instances=9)
     check_b1(ctx, rep)
     check_b2(ctx, rep)
     check_g17(ctx, rep)
     check_g18(ctx, rep)
+    from . import c19_defaults
+    c19_defaults.run(ctx, rep)
     p2_set = {CQ + q for q in c10.CHECK_FIRST}
     for q in c10.CHECK_FIRST:
         c10.check_params_first(ctx, rep, prog.func1(CQ + q), p2_set)
@@ -523,8 +526,4 @@ def _bounded_fallthrough(ctx, f, g, incn, elems):
     return lo_ok and hi_ok
 
 
-# ---- T4 (thorough) ---------------------------------------------------------
 
-def run_thorough(ctx, rep):
-    from . import c19_defaults
-    c19_defaults.run(ctx, rep)
